@@ -46,6 +46,7 @@ func readFixtureInput(path string) (string, bool) {
 
 func loadCorpus(repo, verif string) *corpus {
 	c := &corpus{}
+	loadSourceLists(verif)
 	ents, _ := os.ReadDir(filepath.Join(repo, "tests"))
 	for _, e := range ents {
 		in, ok := readFixtureInput(filepath.Join(repo, "tests", e.Name()))
